@@ -37,6 +37,13 @@ template <class T> static void dominate(T* p, size_t n) {
     for (size_t i = 0; i < r; ++i) p[i * r + i] = (T)(long long)(10 * (long long)r + 3 + (long long)i);
 }
 template <> inline void dominate<bool>(bool*, size_t) {}
+// square_dominant == 2: the dominant entries sit on the anti-diagonal, so every pivoted strategy has to move every row
+template <class T> static void antidominate(T* p, size_t n) {
+    size_t r = 1; while (r * r < n) ++r; if (r * r != n) return;
+    for (size_t i = 0; i < r; ++i) p[i * r + (r - 1 - i)] = (T)(long long)(10 * (long long)r + 3 + (long long)i);
+}
+template <> inline void antidominate<bool>(bool*, size_t) {}
+template <class T> static inline void shape_fill(T* p, size_t n, int mode) { if (mode == 1) dominate<T>(p, n); else if (mode == 2) antidominate<T>(p, n); }
 
 struct Job {
     size_t szA, szB, szR;        // bytes of the operand / result objects (owning) or of the raw buffers (maps)
@@ -101,11 +108,11 @@ template <class K> struct Own {
         fx::escape(a); fx::escape(b); fx::escape(r);
         K::call(*static_cast<const TA*>(a), *static_cast<const TB*>(b), *static_cast<TR*>(r)); fx::clobber();
     }
-    static void fa(void* p, size_t n, unsigned s) { using E = typename TA::scalar_type; fill<E>((E*)p, n, s); if (K::square_dominant) dominate<E>((E*)p, n); }
-    static void fb(void* p, size_t n, unsigned s) { using E = typename TB::scalar_type; fill<E>((E*)p, n, s); if (K::square_dominant) dominate<E>((E*)p, n); }
+    static void fa(void* p, size_t n, unsigned s) { using E = typename TA::scalar_type; fill<E>((E*)p, n, s); shape_fill<E>((E*)p, n, K::square_dominant); }
+    static void fb(void* p, size_t n, unsigned s) { using E = typename TB::scalar_type; fill<E>((E*)p, n, s); shape_fill<E>((E*)p, n, K::square_dominant); }
     static void go(fx::Ctx& fx) {
         Job j{sizeof(TA), sizeof(TB), sizeof(TR), (size_t)TA::size(), (size_t)TB::size(), (size_t)TR::size(), sizeof(typename TA::scalar_type),
-              sizeof(typename TB::scalar_type), sizeof(typename TR::scalar_type), false, K::square_dominant, &fa, &fb, &call};
+              sizeof(typename TB::scalar_type), sizeof(typename TR::scalar_type), false, K::square_dominant != 0, &fa, &fb, &call};
         run_job(fx, j);
     }
 };
@@ -115,10 +122,10 @@ template <class K> struct Map {
         fx::escape(a); fx::escape(b); fx::escape(r);
         K::call((EA*)const_cast<void*>(a), (EB*)const_cast<void*>(b), (ER*)r); fx::clobber();
     }
-    static void fa(void* p, size_t n, unsigned s) { fill<EA>((EA*)p, n, s); if (K::square_dominant) dominate<EA>((EA*)p, n); }
-    static void fb(void* p, size_t n, unsigned s) { fill<EB>((EB*)p, n, s); if (K::square_dominant) dominate<EB>((EB*)p, n); }
+    static void fa(void* p, size_t n, unsigned s) { fill<EA>((EA*)p, n, s); shape_fill<EA>((EA*)p, n, K::square_dominant); }
+    static void fb(void* p, size_t n, unsigned s) { fill<EB>((EB*)p, n, s); shape_fill<EB>((EB*)p, n, K::square_dominant); }
     static void go(fx::Ctx& fx) {
-        Job j{K::NA * sizeof(EA), K::NB * sizeof(EB), K::NR * sizeof(ER), K::NA, K::NB, K::NR, sizeof(EA), sizeof(EB), sizeof(ER), true, K::square_dominant, &fa, &fb, &call};
+        Job j{K::NA * sizeof(EA), K::NB * sizeof(EB), K::NR * sizeof(ER), K::NA, K::NB, K::NR, sizeof(EA), sizeof(EB), sizeof(ER), true, K::square_dominant != 0, &fa, &fb, &call};
         run_job(fx, j);
     }
 };
